@@ -62,6 +62,9 @@ def checkC08 (d : IRDoc) (impl : Json) : PropOut := Id.run do
         let atComponentTop (e : DEnum) : Bool := (e.name.splitOn "/properties/").length = 1 && e.name.startsWith "/components/schemas/"
         let fid := if b = "enum-values-typed" && is30 && offending.all (fun e => e.memberKinds.all (· = "string") && atComponentTop e)
           then "C08-F1:"
+          -- C08-F4 (= C07-F7): 3.1 renders a member of a STRING enum component that reads as another YAML scalar as that scalar
+          else if b = "enum-values-typed" && !is30 && offending.all (fun e => atComponentTop e && e.type = "string")
+          then "C08-F4:"
           -- C08-F3: members of an `enum=` / `oneof=` rule that are not values of the schema's type are written all
           -- the same - on a USAGE site (parameter, field), and only where the converter model predicts it
           else if b = "enum-values-typed" && (if is30 then ct.mistyped30 else ct.mistyped31) && offending.all (fun e => !atComponentTop e || is30 && e.memberKinds.all (· = "string"))
